@@ -8,6 +8,108 @@ from .parse_common import strip_not
 from .c05 import const_str, serialiser_clauses
 
 
+def _catch_all_last(F, r1, fn, order):
+    for i, c in enumerate(order):
+        mname = [n for n in F.fns if re.search(r"%s( as controller::Controller>)?::is_matching(_request)?$" % re.escape(c), n) and (("as controller::Controller" in n) == ("Application" in fn.def_ or "execute" in fn.def_))]
+        for mn in mname:
+            mfn = F.fns[mn]
+            always = _always_true(mfn)
+            ok = (not always) or i == len(order) - 1
+            if always:
+                r1.instance({"dispatcher": fn.def_, "catch_all": c, "position": i + 1, "of": len(order)}, ok)
+            if not ok:
+                r1.violate("C02|R1|%s|%s|catch-all-not-last" % (fn.def_, c), "%s tests the catch-all controller %s at position %d of %d: every later controller is unreachable" % (fn.def_, c, i + 1, len(order)), fn.file, fn.span["line"], fn.def_)
+
+
+def _ctrl_of(name):
+    m = re.match(r"<(.+) as controller::Controller>::(\w+)$", name)
+    if m:
+        return m.group(1).split("::")[-1], m.group(2)
+    parts = name.rsplit("::", 2)
+    return parts[-2], parts[-1]
+
+
+def _table_dispatchers(ctx, already):
+    """functions that walk a constant table whose rows hold a controller's matcher and handler as function pointers"""
+    F = ctx.F
+    from ..inline import is_private_helper
+    tables = {}
+    for cn, c in F.consts.items():
+        v = c.get("v")
+        rows = (v or {}).get("fields") if isinstance(v, dict) else None
+        if not isinstance(rows, dict) or len(rows) < 5:
+            continue
+        out = []
+        for k in sorted(rows, key=lambda x: int(x) if str(x).isdigit() else 0):
+            f = (rows[k] or {}).get("fields") if isinstance(rows[k], dict) else None
+            if not isinstance(f, dict):
+                out = None
+                break
+            ms = [(fk, fv["fn"]) for fk, fv in f.items() if isinstance(fv, dict) and re.search(r"::is_matching(_request)?$", fv.get("fn") or "")]
+            ps = [(fk, fv["fn"]) for fk, fv in f.items() if isinstance(fv, dict) and re.search(r"::process(_request)?$", fv.get("fn") or "")]
+            if len(ms) != 1 or len(ps) != 1:
+                out = None
+                break
+            out.append({"i": len(out) + 1, "matcher_field": ms[0][0], "process_field": ps[0][0], "matcher": ms[0][1], "process": ps[0][1],
+                        "matcher_controller": _ctrl_of(ms[0][1])[0], "process_controller": _ctrl_of(ps[0][1])[0]})
+        if out and len({r["matcher_field"] for r in out}) == 1 and len({r["process_field"] for r in out}) == 1:
+            tables[cn] = out
+    found = []
+    if not tables:
+        return found
+    for fn0 in F.rws_fns():
+        if fn0.kind in ("Promoted", "Closure") or is_private_helper(F, fn0.def_) or fn0.def_ in already:
+            continue
+        fn = ctx.inl(fn0)
+        bodies = [fn] + [g for n, g in F.fns.items() if n.startswith(fn0.def_ + "::{")]
+        used = set()
+        for g in bodies:
+            for b in g.blocks:
+                for st in b["stmts"]:
+                    if st["k"] == "assign":
+                        for o in st["rv"].get("ops", []):
+                            if o.get("k") == "const" and o.get("item") in tables:
+                                used.add(o["item"])
+        for tn in sorted(used):
+            rows = tables[tn]
+            mf, pf = rows[0]["matcher_field"], rows[0]["process_field"]
+            problems, undecided = [], None
+            # the walk: some body calls through the matcher field and hands the answer on unchanged; the handler is called through the
+            # handler field
+            def indirect_fields(g):
+                du = du_of(g)
+                res = []
+                for bid, t in g.calls():
+                    if t.get("indirect") is None:
+                        continue
+                    v = du.val_operand(t["indirect"])
+                    names = [e[2] for e in (v[1][1] if v[0] in ("place", "ref") else ()) if isinstance(e, tuple) and e[0] == "f" and len(e) > 2]
+                    res.append((bid, t, names[-1] if names else None))
+                return res
+            m_calls = [(g, bid, t) for g in bodies for bid, t, nm in indirect_fields(g) if nm == mf]
+            p_calls = [(g, bid, t) for g in bodies for bid, t, nm in indirect_fields(g) if nm == pf]
+            if not m_calls or not p_calls:
+                undecided = "no call through the %s / %s field was found" % (mf, pf)
+            else:
+                for g, bid, t in m_calls:
+                    if g.kind == "Closure":
+                        du = du_of(g)
+                        ds = du.defs.get(0, [])
+                        direct = any(d[0] == "call" and d[1] == bid for d in ds) or any(
+                            d[0] == "assign" and d[3]["k"] == "use" and d[3]["ops"][0].get("k") in ("copy", "move") and d[3]["ops"][0]["l"] == t["dest"]["l"] for d in ds)
+                        if len(ds) == 1 and not direct:
+                            v0 = du.val_place((0, ()))
+                            if v0[0] == "unop" and v0[1] == "Not":
+                                problems.append("the search predicate answers the NEGATION of the row's matcher")
+                            else:
+                                undecided = "the search predicate does not return the matcher's answer directly"
+                        elif len(ds) != 1:
+                            undecided = "the search predicate has several results"
+            found.append({"fn": fn, "table": tn, "rows": rows, "order": [r["matcher_controller"] for r in rows],
+                          "driver_problems": problems, "driver_undecided": undecided})
+    return found
+
+
 def mime_decisions(F, fn):
     """ordered list of (kind, [suffixes], media_type, line) along the false-edge chain of detect_mime_type, and the default"""
     cfg = cfg_of(fn)
@@ -111,9 +213,26 @@ def run(ctx):
         ms = [callee_name(t) for _, t in fn.calls() if re.search(r"::is_matching(_request)?$", callee_name(t) or "") and " as " in (callee_name(t) or "") or re.search(r"Controller::is_matching_request$", callee_name(t) or "")]
         if len(set(ms)) >= 5:
             dispatchers.append(fn)
-    if len(dispatchers) < 2:
+    # a dispatcher may also be driven by a constant table of (matcher, handler) function pointers searched top to bottom
+    table_dispatchers = _table_dispatchers(ctx, [d.def_ for d in dispatchers])
+    if len(dispatchers) + len(table_dispatchers) < 2:
         r1.violate("C02|R1|anchor-missing", "expected two dispatchers (production Application::execute and the legacy handle_request), found %r" % [d.def_ for d in dispatchers])
     orders = {}
+    for td in table_dispatchers:
+        fn = td["fn"]
+        orders[fn.def_] = td["order"]
+        for row in td["rows"]:
+            ok = row["matcher_controller"] == row["process_controller"]
+            r1.instance({"dispatcher": fn.def_, "table": td["table"], "controller": row["matcher_controller"], "row_pairs_matcher_with_own_process": ok}, ok)
+            if not ok:
+                r1.violate("C02|R1|%s|%s|pairing" % (fn.def_, row["process_controller"]), "row %d of %s pairs the matcher of %s with the handler of %s" % (row["i"], td["table"], row["matcher_controller"], row["process_controller"]), fn.file, fn.span["line"], fn.def_)
+        for why in td["driver_problems"]:
+            r1.violate("C02|R1|%s|table-driver" % fn.def_, "%s searches %s but %s" % (fn.def_, td["table"], why), fn.file, fn.span["line"], fn.def_)
+        if td["driver_undecided"]:
+            r1.note("%s: the code that walks %s is not of a form this rule follows (%s): the pairing of the rows is checked, the walk is not" % (fn.def_, td["table"], td["driver_undecided"]))
+        _catch_all_last(F, r1, fn, td["order"])
+    if table_dispatchers:
+        r1.floor = min(r1.floor, 10)
     for fn in dispatchers:
         cfg = cfg_of(fn)
         du = du_of(fn)
@@ -161,22 +280,12 @@ def run(ctx):
                 r1.instance({"dispatcher": fn.def_, "controller": c, "matched_request_reaches_its_process": ok}, ok)
                 if not ok:
                     r1.violate("C02|R1|%s|%s|matched-but-not-processed" % (fn.def_, c), "%s can return after %s's matcher answered true without calling %s::process: the request gets the default response" % (fn.def_, c, c), fn.file, cfg.blocks[sb]["term"]["span"]["line"], fn.def_)
-        # catch-all last
-        for i, c in enumerate(order):
-            mname = [n for n in F.fns if re.search(r"%s( as controller::Controller>)?::is_matching(_request)?$" % re.escape(c), n) and (("as controller::Controller" in n) == ("Application" in fn.def_ or "execute" in fn.def_))]
-            for mn in mname:
-                mfn = F.fns[mn]
-                always = _always_true(mfn)
-                ok = (not always) or i == len(order) - 1
-                if always:
-                    r1.instance({"dispatcher": fn.def_, "catch_all": c, "position": i + 1, "of": len(order)}, ok)
-                if not ok:
-                    r1.violate("C02|R1|%s|%s|catch-all-not-last" % (fn.def_, c), "%s tests the catch-all controller %s at position %d of %d: every later controller is unreachable" % (fn.def_, c, i + 1, len(order)), fn.file, fn.span["line"], fn.def_)
+        _catch_all_last(F, r1, fn, order)
     # ---- R7: the controllers tested BEFORE the static-resource controller answer for fixed paths only; the chain ends in a catch-all
     r5 = chk.rule("R7-fixed-path-controllers", "a controller that is tested before the static-resource controller matches only where an equality of the request path with a constant has succeeded (A13): it cannot answer for a file of the served directory; the last controller of the chain matches everything (a request nobody serves is answered 404 by it)", floor=6)
     from ..implies import true_implies_key_equality
     from ..taint import local_deps
-    for fn in dispatchers:
+    for fn in dispatchers + [td["fn"] for td in table_dispatchers]:
         order = orders.get(fn.def_, [])
         prod = ("Application" in fn.def_ or "execute" in fn.def_)
         def matcher_of(c):
